@@ -205,6 +205,10 @@ DurLawsClause(m, ev) ==
      ELSE IF ~fr /\ ev.cmp[4] # cv[2] THEN "<="
      ELSE IF ~fr /\ ev.cmp[5] # cv[3] THEN ">"
      ELSE IF ~fr /\ ev.cmp[6] # cv[4] THEN ">="
+     \* the library's own verdicts must be consistent whatever the operands (fractions included): equal => same hash, not ordered
+     ELSE IF ev.cmp[1] /\ ev.ha # ev.hb THEN "library-equal-but-hash-differs"
+     ELSE IF ev.cmp[1] = ev.cmp[2] THEN "==/!=-inconsistent"
+     ELSE IF ~fr /\ ev.cmp[1] /\ (ev.cmp[3] \/ ev.cmp[5]) THEN "equal-and-strictly-ordered"      \* (decimal components: order is within float tolerance)
      ELSE IF ev.cmp[3] /\ ev.cmp[5] THEN "<-and->"
      ELSE IF ev.cmp[4] # (ev.cmp[3] \/ ~ev.cmp[5]) \/ ev.cmp[6] # (ev.cmp[5] \/ ~ev.cmp[3]) THEN "<=/>=-inconsistent"
      ELSE IF ~Same(ev.tod, a) \/ ev.tod.wk THEN "to_days"
@@ -690,6 +694,7 @@ Clause(ev) ==
     [] ev.op = "IterNext" -> IterNextClause(mode, ev)
     [] ev.op = "IterStop" -> IterStopClause(mode, ev)
     [] ev.op = "IterAbandon" -> "ok"
+    [] ev.op = "IterGiven" -> IF \E k \in 1..Len(ev.pts) : ~ValidTP(mode, ev.pts[k]) THEN "yielded-invalid-point" ELSE "ok"
     [] ev.op = "Notations" -> NotationsClause(mode, ev)
     [] ev.op = "Query"    -> QueryClause(mode, ev)
     [] ev.op = "Window"   -> WindowClause(mode, ev)
@@ -736,11 +741,17 @@ Step ==
        /\ it' = CASE ev.op = "Begin" -> NoIt
                    [] ev.op = "IterOpen" -> [open |-> TRUE, inp |-> ev.inp, k |-> 0, last |-> ev.inp.a,
                                              forward |-> ev.forward, complete |-> FALSE]
+                   \* C13 is relative to what iteration yields: where the iteration itself is a recorded C12 finding the series
+                   \* is taken as given (not judged here) and the queries are judged against it
+                   [] ev.op = "IterGiven" -> [open |-> TRUE, inp |-> ev.inp, k |-> Len(ev.pts),
+                                              last |-> IF Len(ev.pts) > 0 THEN ev.pts[Len(ev.pts)] ELSE ev.inp.a,
+                                              forward |-> ev.forward, complete |-> ev.complete]
                    [] ev.op = "IterNext" /\ it.open -> [it EXCEPT !.k = it.k + 1, !.last = ev.q]
                    [] ev.op = "IterStop" /\ it.open -> [it EXCEPT !.complete = TRUE]
                    [] OTHER -> it
        /\ ser' = CASE ev.op \in {"Begin", "IterOpen"} -> <<>>
                     [] ev.op = "IterNext" -> Append(ser, ev.q)
+                    [] ev.op = "IterGiven" -> ev.pts
                     [] OTHER -> ser
        /\ dig' = CASE ev.op = "Begin" -> <<>>
                     [] ev.op \in {"PoolInit", "Op"} -> ev.dig
